@@ -32,6 +32,20 @@ Theorem C13_owners_agree_all_histories : forall ops nsb nslots nown w xs,
 Proof. exact owners_agree. Qed.
 Print Assumptions C13_owners_agree_all_histories.
 
+(* … and for every history with RECOVERABLE aborts (aborts delivered as exceptions): a refused
+   operation leaves no trace and the agreement holds after whatever follows it (D24 was a
+   violation of exactly this in the code: the key of a refused registration stayed behind) *)
+Theorem C13_owners_agree_recoverable_aborts : forall ops nsb nslots nown,
+  forallb no_destroy ops = true ->
+  let w := wrun_rec code_move_assign_releases (world_init nsb nslots nown) ops in
+  forall i k,
+    (In k (reachable w i) <-> In k (ckeys (get_sb w i))) /\
+    (In k (ckeys (get_sb w i)) <-> exists j, cb_owner_at w j = Some (i, k)) /\
+    (forall j j', cb_owner_at w j = Some (i, k) -> cb_owner_at w j' = Some (i, k) -> j = j') /\
+    NoDup (reachable w i).
+Proof. exact owners_agree_recoverable. Qed.
+Print Assumptions C13_owners_agree_recoverable_aborts.
+
 (* registering a function that is already registered aborts; registration outside the window aborts;
    a full back-end table refuses *)
 Theorem C13_register_refusals : forall w i k,
